@@ -53,6 +53,8 @@ KINDS = {
     "ff-gophermap": [("file", "ffm/gophermap", b"info with \x0c form feed\n0Doc \x1c with fs\trel.txt\ninfo \xc2\x85 nel and \xe2\x80\xa8 ls\n1V\x0bT\t..\n"), ("file", "ffm/rel.txt", b"rel\n")],
     "ff-names": [("file", "f.txt", b"file f\n"), ("file", ".names", b"Path=./f.txt\nName=Form\x0cFeed Name\nAbstract=abs \x1d gs\nNumb=3\n")],
     "ff-sidecar": [("file", "f.txt", b"file f\n"), ("file", "f.txt.abstract", b"line one\x0cstill line one\nline two \x0b vt\n\x1eline three\n")],
+    # compressed documents (served decompressed where a decompressor is configured)
+    "gz-member": [("file", "c.txt.gz", worlds.gz(b"compressed member\n" * 20)), ("file", "sub/d.html.gz", worlds.gz(worlds.HTML))],
     # members stored without a usable date (all-zero DOS date and time, as some archivers write) or with an impossible one
     "zero-date": [("file", "old.txt", b"old\n", (1980, 0, 0, 0, 0, 0)), ("file", "sub/older.txt", b"older\n", (1980, 0, 0, 0, 0, 0)), ("file", "odd.txt", b"odd\n", (2107, 15, 31, 31, 63, 62))],
     # archives with nothing in them, or nothing that resolves
